@@ -9,7 +9,7 @@ import sys
 ROOT = os.path.join(os.path.dirname(os.path.dirname(os.path.abspath(__file__))), "coq", "theories")
 
 
-STANDALONE = {"AckProofs", "LocksProofs", "LedgerProofs", "LedgerUpdProofs", "PoolProofs", "WindowProofs", "MicroProofs", "MicroStats", "MicroBound", "MicroBal", "MicroAll", "MicroProv", "MicroLedger", "MicroFifo", "MicroAck", "MicroPut", "MicroCharged", "MicroFlow", "MicroHeld", "MicroBoundAll", "PrecondProofs"}
+STANDALONE = {"AckProofs", "LocksProofs", "LedgerProofs", "LedgerUpdProofs", "LedgerRunProofs", "PoolProofs", "WindowProofs", "MicroProofs", "MicroStats", "MicroBound", "MicroBal", "MicroAll", "MicroProv", "MicroLedger", "MicroFifo", "MicroAck", "MicroPut", "MicroCharged", "MicroFlow", "MicroHeld", "MicroBoundAll", "PrecondProofs"}
 
 
 def statements(modname):
@@ -27,6 +27,7 @@ def emit(pid, title, imports, items, examples=""):
     lines = ["(** %s. %s" % (pid, title),
              "    This file only pins statements: every theorem restates a lemma of proofs/ verbatim and is closed by it. *)",
              ("From CacheD Require Import Base Sketch Model Precond.\nFrom CacheD.proofs Require Import Defs." if "PrecondProofs" in imports else
+              "From CacheD Require Import Base Ledger LedgerUpd LedgerRun." if "LedgerRunProofs" in imports else
               "From CacheD Require Import Base Ledger LedgerUpd." if "LedgerUpdProofs" in imports else
               "From CacheD Require Import Base Ledger." if "LedgerProofs" in imports else
               "From CacheD Require Import Base PoolProto." if "PoolProofs" in imports else
@@ -67,9 +68,9 @@ def spec(pid, title, imports, items, examples=""):
 
 A, I, P, K, W, H, T = "AdmissionProofs", "InvProofs", "ApiProofs", "AckProofs", "SweepProofs", "HistoryProofs", "StatsProofs"
 
-spec("C01_ledger", "Total weight never exceeds the configured cache weight: every interleaving of the individual ledger actions", ["LedgerProofs"], [
+spec("C01_ledger", "Total weight never exceeds the configured cache weight: every interleaving of the individual ledger actions", ["LedgerProofs", "LedgerRunProofs"], [
     ("LedgerProofs", "ledger_bounded", "all_interleavings"), ("LedgerProofs", "ledger_exact_when_quiet", None),
-    ("LedgerProofs", "ledger_add_within_limit", None),
+    ("LedgerProofs", "ledger_add_within_limit", None), ("LedgerRunProofs", "ledger_trace_bounded", None),
 ])
 spec("C15_pool", "Reads never wait for the sketch; access records are counted or dropped: every interleaving of any number of readers, buffers and the consumer", ["PoolProofs"], [
     ("PoolProofs", "hits_conserved", "all_interleavings_hits_conserved"), ("PoolProofs", "added_conserved", "all_interleavings_added_conserved"),
@@ -85,8 +86,9 @@ spec("C08_window", "put_or_update split at its schedule point: the two halves ar
     ("WindowProofs", "upsert_halves_compose", None), ("WindowProofs", "atomic_schedule_refines", None),
     ("WindowProofs", "sweep_inside_upsert_window_refuted", "known_finding_sweep_inside_upsert_window"),
 ])
-spec("C05_ledger", "CacheWeight::update against the sweeper's CacheWeight::delete, one lock-delimited action at a time: the entry guard makes the update atomic", ["LedgerUpdProofs"], [
+spec("C05_ledger", "CacheWeight::update against the sweeper's CacheWeight::delete, one lock-delimited action at a time: the entry guard makes the update atomic", ["LedgerUpdProofs", "LedgerRunProofs"], [
     ("LedgerUpdProofs", "guarded_update_exact", None), ("LedgerUpdProofs", "unguarded_update_refuted", "guard_is_necessary"),
+    ("LedgerRunProofs", "ledger_trace_exact_when_quiet", None), ("LedgerRunProofs", "update_trace_exact_when_quiet", None),
 ])
 spec("C17_precond", "The documented preconditions: what the builders accept is what the theorems assume", ["PrecondProofs"], [
     ("PrecondProofs", "accepted_config_is_wf", None), ("PrecondProofs", "accepted_upsert_iff_valid", None), ("PrecondProofs", "accepted_put_weight_iff_valid", None),
